@@ -509,9 +509,16 @@ func registerBinary(e *Engine) {
 		if cs, ok := s.(string); ok {
 			return hex.EncodeToString([]byte(cs))
 		}
-		return hexOfCells(cells, false)
+		cp := make([]value, len(cells))
+		copy(cp, cells)
+		return &SymStr{parts: []strPart{{s: "hex~"}, {kind: "b", cells: cp}}}
 	})
 	e.reg("encoding/hex.DecodeString", func(fr *frame, args []value) value {
+		if ss, ok := args[0].(*SymStr); ok && len(ss.parts) == 2 && ss.parts[0].s == "hex~" && ss.parts[1].kind == "b" {
+			cp := make([]value, len(ss.parts[1].cells))
+			copy(cp, ss.parts[1].cells)
+			return tuple{cp, nilErr()}
+		}
 		s, ok := args[0].(string)
 		if !ok {
 			abort("unmodelled", "hex.DecodeString of symbolic string")
